@@ -82,6 +82,16 @@ Section E2EIsHigh.
     e_indexed_select pg op n S cb table iname columns s = h_indexed_select pg op n S cb (schema_of st) table iname columns s.
   Proof. intros Hm Hf Hd. unfold e_indexed_select. exact (with_schema_is s table _ ms st fl Hm Hf Hd). Qed.
 
+  Theorem e_indexed_select_eq_is_h S cb table iname k columns (s : S) ms st fl : master pg op n = (fl, ms) -> (forall e, fl <> Fail e) ->
+    db_schema ms table = Ok st ->
+    e_indexed_select_eq pg op n S cb table iname k columns s = h_indexed_select_eq pg op n S cb (schema_of st) table iname k columns s.
+  Proof. intros Hm Hf Hd. unfold e_indexed_select_eq. exact (with_schema_is s table _ ms st fl Hm Hf Hd). Qed.
+
+  Theorem e_pk_select_is_h S cb table k columns (s : S) ms st fl : master pg op n = (fl, ms) -> (forall e, fl <> Fail e) ->
+    db_schema ms table = Ok st ->
+    e_pk_select pg op n S cb table k columns s = h_pk_select pg op n S cb (schema_of st) table k columns s.
+  Proof. intros Hm Hf Hd. unfold e_pk_select. exact (with_schema_is s table _ ms st fl Hm Hf Hd). Qed.
+
   (* a definition that cannot be interpreted produces an error, never rows (C01's last sentence) *)
   Theorem e_select_uninterpretable S cb table columns (s : S) ms fl e : master pg op n = (fl, ms) ->
     db_schema ms table = Err e -> exists e', e_select pg op n S cb table columns s = (Fail e', s).
